@@ -459,10 +459,12 @@ func (c connectStreamClientProtocol) encodeEnd(op *operation, end *responseEnd, 
 		buffer.WriteString(`{"error": {"code": "internal", "message": ` + strconv.Quote(err.Error()) + `}}`)
 	}
 	// TODO: compress?
-	length := buffer.Len()
-	limit := op.methodConf.maxMsgBufferBytes
-	if length > int(limit) {
-		return nil
+	// The end-of-stream message is already in memory, so the message buffer limit
+	// does not apply to it; a stream without it would be invalid. Only an envelope
+	// that cannot express its length forces a replacement.
+	if int64(buffer.Len()) > math.MaxUint32 {
+		buffer.Reset()
+		buffer.WriteString(`{"error": {"code": "internal", "message": "end of stream message too large"}}`)
 	}
 	env := envelope{trailer: true, length: uint32(buffer.Len())} //nolint:gosec // Length is validated above.
 	envBytes := c.encodeEnvelope(env)
